@@ -56,3 +56,4 @@ META.update({
         "mapping row per (order, covered step) with factor capa x dt, bool flag iff full execution, empty cover => zero cost and no row; "
         "the order loop is summarised for a symbolic number of orders. io 'special' output not under contract. " + PROOF_NOTE)),
 })
+from . import c06  # noqa
